@@ -33,6 +33,9 @@ func c01Gen(g *Gen, n int) {
 	for emitted := 0; emitted < n; {
 		N := 1 + g.Intn(12)
 		h := 1 + g.Intn(2)
+		if thorough {
+			N, h = 1+g.Intn(40), 1+g.Intn(4)
+		}
 		id := g.Intn(N)
 		byKind := map[string][]c01Case{}
 		var kinds []string
@@ -89,6 +92,41 @@ func c01Gen(g *Gen, n int) {
 			}
 		}
 	}
+	// forks (SecurityError path of checkTrees): sequential C13 scenarios over two logs sharing a prefix
+	for k := 0; k < n/6+1; {
+		nA, nB := 2+g.Intn(9), 2+g.Intn(9)
+		p := g.Intn(min(nA, nB))
+		var cases []c13Case
+		c13Enumerate(g.Rand, wseed, nA, p, nB, 1+g.Intn(2), func(c c13Case) {
+			if !strings.Contains(c.line, " par=") {
+				cases = append(cases, c)
+			}
+		})
+		if len(cases) == 0 {
+			k++
+			continue
+		}
+		for j := 0; j < 4; j++ {
+			c := cases[g.Intn(len(cases))]
+			sc, ok := clParseScenario(strings.Fields(c.line)[1:])
+			if !ok {
+				continue
+			}
+			out := clRunScenario(sc)
+			k++
+			if out.bad || out.hang {
+				continue
+			}
+			for _, s := range clSessions(out) {
+				g.Emit(s.line(), true, "lookup/fork")
+				if g.Intn(4) == 0 {
+					if m, tag := c01MutateSession(g, s); m != nil {
+						g.Emit(m.line(), true, "lookup/mut-"+tag)
+					}
+				}
+			}
+		}
+	}
 	// O3 and a GONOSUMDB instance, as replay sessions
 	w := clGetWorld(1, 5, 0, 0)
 	o := w.A.recs[0]
@@ -110,7 +148,11 @@ func c01MutateSession(g *Gen, s *clSession) (*clSession, string) {
 	m := &clSession{h: s.h, nosumdb: s.nosumdb, pub: s.pub, looks: s.looks}
 	m.reads = append([]clReplayRead(nil), s.reads...)
 	m.writes = append([]string(nil), s.writes...)
-	switch g.Intn(5) {
+	switch g.Intn(6) {
+	case 5:
+		// SetTileHeight not called: the default height 8 (other tile names: the recorded tile answers are never asked for)
+		m.h = 0
+		return m, "default-height"
 	case 0:
 		// ErrWriteConflict before the recorded results; the configuration is then read again: repeat its last answer
 		m.writes = append([]string{"c"}, m.writes...)
